@@ -99,21 +99,15 @@ def main():
                 o, r, detail = outcome(thunk)
                 with np.errstate(all="ignore"):
                     want = ref()
-                    # the rule's inputs, computed independently of the implementation
-                    fvals = want[~mask] if dense.shape == d.shape else None
-                    bfill = np.broadcast_to(want, want.shape)
-                    # func(fill, dense operands) is one constant <=> the reference is constant over the positions of any all-fill array;
-                    # evaluate it directly on an all-fill operand
-                    allfill = np.full(d.shape, fv)
-                    subst = {"x": allfill}
-                    const_arr = eval_expr(expr, allfill, dense)
+                    # the rule's first input, computed independently of the implementation: func(fill, dense operands) evaluated on an
+                    # all-fill stand-in for the sparse operand is one constant
+                    const_arr = eval_expr(expr, np.full(d.shape, fv), dense)
                 const = bool(np.all(equalnan(const_arr, const_arr.flat[0])))
                 rec = {"expr": expr, "format": fmt, "fill": fk, "outcome": o, "const_fill": const,
                        "dense_has_result_shape": tuple(dense.shape) == tuple(want.shape), "detail": detail[:160]}
                 if o in ("sparse", "dense"):
                     rec["equal"] = eq(r.todense() if o == "sparse" else r, want)
                 mix.append(rec)
-                _ = (fvals, bfill, subst)
     print(json.dumps({"auto_densify": bool(_settings.AUTO_DENSIFY), "coercions": coercions, "mix": mix}))
 
 
